@@ -608,6 +608,15 @@ class Ref:
       else:
         raise Unsupported('operator ' + e.op)
       return S(v, 'int', OR(a.null, b.null))
+    if isinstance(e, Builtin):
+      xs = [V.to_S(self.ev(a, bind)) for a in e.args]
+      if e.name in ('Greatest', 'Least'):
+        acc = xs[0]
+        for x in xs[1:]:
+          better = V.LT(V._num(acc), V._num(x)) if e.name == 'Greatest' else V.LT(V._num(x), V._num(acc))
+          acc = S(V.ITE(better, V._num(x), V._num(acc)), 'int', OR(acc.null, x.null))
+        return acc
+      raise Unsupported('builtin ' + e.name)
     if isinstance(e, UMinus):
       a = V.to_S(self.ev(e.e, bind))
       return S(0 - V._num(a), 'int', a.null)
